@@ -949,12 +949,23 @@ class CompilerPassGenerateCode(CompilerPass):
             raise CompilerError("List must be constant", node)
 
         values = iter_data.constant_value
-        for_label, body_label, cont_label, end_label = self.get_label(
-            "for", "for.body", "for.cont", "for.end"
+        for_label, body_label, cont_label, break_label, end_label = self.get_label(
+            "for", "for.body", "for.cont", "for.break", "for.end"
         )
+        # the body is a subroutine reached by 'jal': a call inside it overwrites ra, so ra is
+        # kept on the stack while the body runs ('break' leaves through a label that drops it)
+        save_ra = any(
+            isinstance(call.func, (nodes.Name, nodes.Attribute))
+            and get_function_name(call.func) in self.data.functions
+            for stmt in node.body
+            for call in stmt.nodes_of_class(nodes.Call)
+        )
+        has_break = any(True for stmt in node.body for _ in stmt.nodes_of_class(nodes.Break))
+        if not (save_ra and has_break):
+            break_label = end_label
         # targets of 'continue' (return from the body subroutine) and 'break'
         node._ndata.start_label = cont_label
-        node._ndata.end_label = end_label
+        node._ndata.end_label = break_label
         value_sym = self.data.get_sym_data(node.target)
         if not value_sym.code_expr:
             value_sym.code_expr = self.get_intermediate_symbol(node, True).code_expr
@@ -967,8 +978,16 @@ class CompilerPassGenerateCode(CompilerPass):
         data.add(IC10("j", [end_label]))
 
         data.add(IC10(f"{body_label}:"))
+        ra = IC10Register("ra", code_expr="ra")
+        if save_ra:
+            data.add(IC10("push", [ra], indent=1))
         data.add_end(IC10(f"{cont_label}:"))
+        if save_ra:
+            data.add_end(IC10("pop", [], ra, indent=1))
         data.add_end(IC10("j", ["ra"], indent=1))
+        if break_label != end_label:
+            data.add_end(IC10(f"{break_label}:"))
+            data.add_end(IC10("pop", [], ra, indent=1))
         data.add_end(IC10(f"{end_label}:"))
 
         for stmt in node.body:
